@@ -158,6 +158,7 @@ impl<H: Hist> Check for FindSweep<H> {
             .par_iter()
             .map(|edges| {
                 let mut n = 0u64;
+                let mut sigs = std::collections::HashSet::new();
                 let mut found = Vec::new();
                 let mut outcomes = std::collections::BTreeSet::new();
                 let mut zero_width_or_inf = 0u64;
@@ -165,7 +166,9 @@ impl<H: Hist> Check for FindSweep<H> {
                     n += 1;
                     outcomes.insert(format!("{:?}", ref_find(edges, x)));
                     for v in judge_find_add::<H>(edges, x) {
-                        found.push((v, json!([{"edges": edges_json(edges)}, {"sample": fshow(x)}])));
+                        if sigs.insert(v.sig.clone()) {
+                            found.push((v, json!([{"edges": edges_json(edges)}, {"sample": fshow(x)}])));
+                        }
                     }
                 }
                 if edges.windows(2).any(|w| w[0] == w[1]) || edges.iter().any(|e| e.is_infinite()) {
